@@ -112,7 +112,8 @@ mod actual {
 
                 VehicleType {
                     type_id: vehicle.id.clone(),
-                    vehicle_ids: (1..=vehicle.amount).map(|seq| format!("{}_{}", vehicle.profile, seq)).collect(),
+                    // NOTE: vehicle ids have to be unique across all types, so derive them from the (unique) type id
+                    vehicle_ids: (1..=vehicle.amount).map(|seq| format!("{}_{}", vehicle.id, seq)).collect(),
                     profile: VehicleProfile { matrix: vehicle.profile, scale: None },
                     costs: VehicleCosts { fixed: Some(25.), distance: 0.0002, time: 0.005 },
                     shifts: vec![VehicleShift {
